@@ -255,14 +255,15 @@ func (p *specParser) postfix(x *SExpr) *SExpr {
 		case p.isOp("("):
 			p.next()
 			var args []*SExpr
+			quant := x.Kind == "ident" && (x.Name == "forall" || x.Name == "exists")
 			for !p.isOp(")") {
-				a := p.expr(0)
-				// optional type annotation for binders: "k int"
-				if p.peek().kind == "ident" || p.isOp("[") || p.isOp("*") {
-					if a.Kind == "ident" {
-						ty := p.typeText()
-						a = &SExpr{Kind: "typed", Name: ty, Args: []*SExpr{a}, Pos: a.Pos}
-					}
+				var a *SExpr
+				if quant && p.looksLikeBinder() {
+					id := p.next()
+					ty := p.typeText()
+					a = &SExpr{Kind: "typed", Name: ty, Args: []*SExpr{{Kind: "ident", Name: id.text, Pos: id.pos}}, Pos: id.pos}
+				} else {
+					a = p.expr(0)
 				}
 				args = append(args, a)
 				if p.isOp(",") {
@@ -310,6 +311,35 @@ func (p *specParser) postfix(x *SExpr) *SExpr {
 			return x
 		}
 	}
+}
+
+// looksLikeBinder: ident followed by a type (ident, *ident, []...) and then ',' .
+func (p *specParser) looksLikeBinder() bool {
+	i := p.p
+	if p.toks[i].kind != "ident" {
+		return false
+	}
+	i++
+	for {
+		t := p.toks[i]
+		if t.kind == "op" && t.text == "*" {
+			i++
+			continue
+		}
+		if t.kind == "op" && t.text == "[" && p.toks[i+1].kind == "op" && p.toks[i+1].text == "]" {
+			i += 2
+			continue
+		}
+		break
+	}
+	if p.toks[i].kind != "ident" {
+		return false
+	}
+	i++
+	if p.toks[i].kind == "op" && p.toks[i].text == "." && p.toks[i+1].kind == "ident" {
+		i += 2
+	}
+	return p.toks[i].kind == "op" && p.toks[i].text == ","
 }
 
 // typeText consumes a simple type: ident, pkg.ident, []T, *T.
